@@ -15,13 +15,15 @@ func TestVerifC16All(t *testing.T) {
 		return
 	}
 	var in struct {
-		Read []readCase `json:"read"`
-		Fc   []fcCase   `json:"fc"`
-		Hbq  []hbqCase  `json:"hbq"`
-		Reg  []regCase  `json:"reg"`
-		Mat  []matCase  `json:"mat"`
-		Win  []winCase  `json:"win"`
-		Hbb  []int      `json:"hbb"`
+		Read []readCase     `json:"read"`
+		Fc   []fcCase       `json:"fc"`
+		Hbq  []hbqCase      `json:"hbq"`
+		Reg  []regCase      `json:"reg"`
+		Mat  []matCase      `json:"mat"`
+		Win  []winCase      `json:"win"`
+		Hbb  []int          `json:"hbb"`
+		Mw   []mwCase       `json:"mw"`
+		Mws  []mwStressCase `json:"mws"`
 	}
 	if err := json.Unmarshal(raw, &in); err != nil {
 		t.Fatal(err)
@@ -68,6 +70,20 @@ func TestVerifC16All(t *testing.T) {
 			r[i] = runWinCase(c)
 		}
 		out["win"] = r
+	}
+	if in.Mw != nil {
+		r := make([]mwRes, len(in.Mw))
+		for i, c := range in.Mw {
+			r[i] = runMwCase(c)
+		}
+		out["mw"] = r
+	}
+	if in.Mws != nil {
+		r := make([]mwStressRes, len(in.Mws))
+		for i, c := range in.Mws {
+			r[i] = runMwStress(c)
+		}
+		out["mws"] = r
 	}
 	if in.Hbb != nil {
 		out["hbb"] = []hbbRes{runHbBypass(20, 150)}
